@@ -25,6 +25,7 @@ def run(ctx):
     ctx.guard(forwarding, ctx)
     ctx.guard(handing_on, ctx)
     ctx.guard(entry, ctx)
+    ctx.guard(keep_defaults, ctx)
     from . import c01 as _c01
     ctx.shared(_c01.order, ctx)                # instances come into being through MetaClass.new only (where the defaults are computed)
     from . import c18 as _c18
@@ -455,3 +456,35 @@ def generators(ctx):
         r.check(isinstance(stored[given], ast.Name) and stored[given].id == p, 'a given generator (%s) is stored on the metamodel' % what, init,
                 construct='xtuml.meta:MetaModel.__init__', key='store-generator',
                 msg='id_generator is not stored on the metamodel when %s is given (the code stores %s)' % (what, src(stored[given]) if stored[given] is not None else None))
+
+
+def keep_defaults(ctx):
+    """the loader creates the instance with MetaClass.new (defaults, fresh ids) and then stores the values of the statement; on the positional
+    route whatever it stores must come from a value of the statement - a constant store wipes the default / the generated id of a column the
+    statement does not mention"""
+    repo = ctx.repo
+    r = ctx.rule('C19-KEEP', 'the positional INSERT route stores only values of the statement over the defaults computed by new()', floor=1,
+                 oracle='property statement: omitted arguments keep the default of their type')
+    Q = 'xtuml.load:ModelLoader._populate_instance_with_positional_arguments'
+    fn = repo.func(Q)
+    n = 0
+    for node in ast.walk(fn):
+        val = None
+        if isinstance(node, ast.Assign) and any(isinstance(t, ast.Subscript) and isinstance(t.value, ast.Attribute) and t.value.attr == '__dict__' for t in node.targets):
+            val = node.value
+        elif isinstance(node, ast.Call) and dotted(node.func) == 'setattr' and len(node.args) == 3:
+            val = node.args[2]
+        if val is None:
+            continue
+        n += 1
+        v = val
+        if isinstance(v, ast.Name):
+            defs = [a.value for a in ast.walk(fn) if isinstance(a, ast.Assign) and any(isinstance(t, ast.Name) and t.id == v.id for t in a.targets)]
+            from_stmt = bool(defs) and all(isinstance(d, ast.Call) and dotted(d.func).endswith('deserialize_value') for d in defs)
+        else:
+            from_stmt = isinstance(v, ast.Call) and dotted(v.func).endswith('deserialize_value')
+        r.check(from_stmt, 'the stored value is the deserialised value of the statement', node, construct=Q, key='stored ' + src(val)[:30],
+                msg='the positional INSERT route stores `%s`, which is not a deserialised value of the statement: the attribute loses the typed default '
+                    '(or the fresh unique id) that MetaClass.new had given it' % src(val)[:60])
+    if n < 1:
+        raise AnalysisError('%s: no store of a value into the new instance found' % loc(fn))
